@@ -7,22 +7,24 @@
 (*   mechanism ReturnedIsNamed  the returned value is the named option's value (or value|ADD)  *)
 EXTENDS Fusion, IOUtils
 CONSTANTS MaxGap, WrongOption
-VARIABLES v, other, forced, minsp, gapIn, sameLine, l
+VARIABLES v, other, forced, minsp, gapIn, sameLine, qt, inTable, l
 S == INSTANCE Space
 TraceLog == ndJsonDeserialize(IOEnv.TRACE)
 Ev == TraceLog[l]
 (* the statement's own exceptions to Remove: 'return' / 'case' and an operand, a macro name   *)
 (* and what opens its body - there Remove is documented to be treated as Force                *)
-StatementExempt(e) == e.val = "remove" /\ e.gout = 1 /\ e.t1 \in {"RETURN", "CASE", "MACRO"}
+StatementExempt(e) == S!Effective(e.val, e.qt = 1, e.rule \in S!QtRules) = "remove" /\ e.gout = 1 /\ e.t1 \in {"RETURN", "CASE", "MACRO"}
 Judged(e) == e.val # "" /\ e.outsame /\ ~e.cmt2 /\ e.minsp <= 1 /\ e.s1 # <<>> /\ e.s2 # <<>> /\ ~StatementExempt(e)
-TNext == /\ l <= Len(TraceLog) /\ l' = l + 1 /\ UNCHANGED <<a, b, ang, v, other, forced, minsp, gapIn, sameLine>>
+TNext == /\ l <= Len(TraceLog) /\ l' = l + 1 /\ UNCHANGED <<a, b, ang, v, other, forced, minsp, gapIn, sameLine, qt, inTable>>
          /\ LET e == Ev
                 sep == Fuses(e.s1, e.s2)
-                bad == IF Judged(e) /\ ~S!Clause(e.val, e.gin, e.gout, e.same, sep) THEN {"ValueObeyed"} ELSE {}
-                drift == IF e.val # "" /\ e.av # e.val /\ e.av # S!OrAdd(e.val) THEN {"ReturnedIsNamed"} ELSE {}
+                eff == S!Effective(e.val, e.qt = 1, e.rule \in S!QtRules)
+                bad == IF Judged(e) /\ ~S!Clause(eff, e.gin, e.gout, e.same, sep) THEN {"ValueObeyed"} ELSE {}
+                drift == (IF e.val # "" /\ e.av # eff /\ e.av # S!OrAdd(eff) THEN {"ReturnedIsNamed"} ELSE {}) \cup
+                         (IF e.qtrule # (e.rule \in S!QtRules) THEN {"QtTableAsSource"} ELSE {})
             IN (bad # {} \/ drift # {}) => PrintT("@@" \o ToJson([l |-> l, id |-> e.id, bad |-> bad, drift |-> drift, sep |-> sep]))
 TInit == /\ l = 1 /\ a = <<>> /\ b = <<>> /\ ang = FALSE /\ v = "ignore" /\ other = "ignore" /\ forced = FALSE /\ minsp = 1
-         /\ gapIn = 0 /\ sameLine = TRUE
-TSpec == TInit /\ [][TNext]_<<l, a, b, ang, v, other, forced, minsp, gapIn, sameLine>>
+         /\ gapIn = 0 /\ sameLine = TRUE /\ qt = FALSE /\ inTable = FALSE
+TSpec == TInit /\ [][TNext]_<<l, a, b, ang, v, other, forced, minsp, gapIn, sameLine, qt, inTable>>
 TraceAccepted == TLCGet("stats").diameter - 1 = Len(TraceLog)
 =============================================================================
